@@ -30,6 +30,8 @@ def generate(seed, tier):
         p = S.add_file(g, d, big if g.chance(0.3) else 5000)
         total += d['fs'][p]['content']['size']
         ops.append(S.timeouts(g, {'op': 'pull', 'path': p, 'dest': g.pick(['bytesio', 'file', 'file', 'pathlib', 'bytes_path']), 'cb': g.pick([None, 'count', 'raise', 'raise_base'])}))
+        if ops[-1]['dest'] != 'bytesio' and g.chance(0.3):
+            ops[-1]['prefill'] = g.pick([1, 100, d['fs'][p]['content']['size'] + g.pick([1, 500]), 200000])      # an existing, possibly longer destination is replaced
         if g.chance(0.15):
             # what STAT says about the file is not what RECV delivers (a file that grows, /proc entries with st_size 0, a symlink's lstat)
             f = d['fs'][p]
